@@ -147,3 +147,13 @@ class OrderedSetSeam:
         else:
             del R.set
         return False
+
+
+def install_default_set_order():
+    """Own the only hash-order dependence of the implementation for every check: unless an
+    explorer installs its own seam, `set(...)` inside hpl.rewrite hands elements out in insertion
+    order, so results and counts do not depend on PYTHONHASHSEED."""
+    import hpl.rewrite as R
+
+    if 'set' not in R.__dict__:
+        R.set = OrderedSetSeam().make()
